@@ -10,6 +10,18 @@ namespace DI.Gen
 
 open DI.Py
 
+/-- dataiter/list_of_dicts.py: ListOfDicts.group_by (sha256 of the function source: 6a7f309844f255cb) -/
+def ListOfDicts_group_by (truth : Term → Bool) : Out :=
+  let attr0_1' : Term := (Term.app "tuple" [(Term.sym "keys")]);
+  let eff0 : Term := (Term.app "setattr" [(Term.sym "self"), (Term.sym "_group_keys"), attr0_1']);
+  Out.ret [eff0] (Term.sym "self")
+
+/-- the decorators of dataiter/list_of_dicts.py: ListOfDicts.group_by, outermost first -/
+def ListOfDicts_group_by_decorators : List String := []
+
+/-- the signature of dataiter/list_of_dicts.py: ListOfDicts.group_by: parameters in order, with the source text of their defaults -/
+def ListOfDicts_group_by_signature : List String := ["self", "*keys"]
+
 /-- dataiter/list_of_dicts.py: ListOfDicts.anti_join (sha256 of the function source: 239f983edc83bde5) -/
 def ListOfDicts_anti_join (truth : Term → Bool) : Out :=
   let tup0_1' : Term := (Term.app "._split_join_by" [(Term.sym "self"), (Term.app "*" [(Term.sym "by")])]);
@@ -23,6 +35,9 @@ def ListOfDicts_anti_join (truth : Term → Bool) : Out :=
 
 /-- the decorators of dataiter/list_of_dicts.py: ListOfDicts.anti_join, outermost first -/
 def ListOfDicts_anti_join_decorators : List String := ["deco.new_from_generator"]
+
+/-- the signature of dataiter/list_of_dicts.py: ListOfDicts.anti_join: parameters in order, with the source text of their defaults -/
+def ListOfDicts_anti_join_signature : List String := ["self", "other", "*by"]
 
 /-- dataiter/list_of_dicts.py: ListOfDicts.inner_join (sha256 of the function source: 2a3392b4a2f7e25d) -/
 def ListOfDicts_inner_join (truth : Term → Bool) : Out :=
@@ -39,6 +54,9 @@ def ListOfDicts_inner_join (truth : Term → Bool) : Out :=
 
 /-- the decorators of dataiter/list_of_dicts.py: ListOfDicts.inner_join, outermost first -/
 def ListOfDicts_inner_join_decorators : List String := ["deco.obsoletes", "deco.new_from_generator"]
+
+/-- the signature of dataiter/list_of_dicts.py: ListOfDicts.inner_join: parameters in order, with the source text of their defaults -/
+def ListOfDicts_inner_join_signature : List String := ["self", "other", "*by"]
 
 /-- dataiter/list_of_dicts.py: ListOfDicts.full_join (sha256 of the function source: fa2fdb6b559a09d8) -/
 def ListOfDicts_full_join (truth : Term → Bool) : Out :=
@@ -60,6 +78,9 @@ def ListOfDicts_full_join (truth : Term → Bool) : Out :=
 /-- the decorators of dataiter/list_of_dicts.py: ListOfDicts.full_join, outermost first -/
 def ListOfDicts_full_join_decorators : List String := []
 
+/-- the signature of dataiter/list_of_dicts.py: ListOfDicts.full_join: parameters in order, with the source text of their defaults -/
+def ListOfDicts_full_join_signature : List String := ["self", "other", "*by"]
+
 /-- dataiter/list_of_dicts.py: ListOfDicts._split_join_by (sha256 of the function source: 514e3228ccced4c1) -/
 def ListOfDicts_split_join_by (truth : Term → Bool) : Out :=
   let by1' : Term := (Term.app "ListComp" [(Term.app "ifexp" [(Term.app "isinstance" [(Term.sym "x"), (Term.sym "str")]), (Term.sym "x"), (Term.app "getitem" [(Term.sym "x"), (Term.int (0 : Int))])]), (Term.app "in" [(Term.sym "x"), (Term.sym "by"), (Term.app "if" [])])]);
@@ -68,6 +89,9 @@ def ListOfDicts_split_join_by (truth : Term → Bool) : Out :=
 
 /-- the decorators of dataiter/list_of_dicts.py: ListOfDicts._split_join_by, outermost first -/
 def ListOfDicts_split_join_by_decorators : List String := []
+
+/-- the signature of dataiter/list_of_dicts.py: ListOfDicts._split_join_by: parameters in order, with the source text of their defaults -/
+def ListOfDicts_split_join_by_signature : List String := ["self", "*by"]
 
 /-- dataiter/list_of_dicts.py: ListOfDicts.aggregate (sha256 of the function source: 54015ea61e3b2491) -/
 def ListOfDicts_aggregate (truth : Term → Bool) : Out :=
@@ -86,6 +110,9 @@ def ListOfDicts_aggregate (truth : Term → Bool) : Out :=
 /-- the decorators of dataiter/list_of_dicts.py: ListOfDicts.aggregate, outermost first -/
 def ListOfDicts_aggregate_decorators : List String := ["deco.new_from_generator"]
 
+/-- the signature of dataiter/list_of_dicts.py: ListOfDicts.aggregate: parameters in order, with the source text of their defaults -/
+def ListOfDicts_aggregate_signature : List String := ["self", "**key_function_pairs"]
+
 /-- dataiter/list_of_dicts.py: ListOfDicts.left_join (sha256 of the function source: 006ed310d1531972) -/
 def ListOfDicts_left_join (truth : Term → Bool) : Out :=
   let tup0_1' : Term := (Term.app "._split_join_by" [(Term.sym "self"), (Term.app "*" [(Term.sym "by")])]);
@@ -101,6 +128,9 @@ def ListOfDicts_left_join (truth : Term → Bool) : Out :=
 /-- the decorators of dataiter/list_of_dicts.py: ListOfDicts.left_join, outermost first -/
 def ListOfDicts_left_join_decorators : List String := ["deco.obsoletes", "deco.new_from_generator"]
 
+/-- the signature of dataiter/list_of_dicts.py: ListOfDicts.left_join: parameters in order, with the source text of their defaults -/
+def ListOfDicts_left_join_signature : List String := ["self", "other", "*by"]
+
 /-- dataiter/list_of_dicts.py: ListOfDicts.semi_join (sha256 of the function source: 1a2b464ac3263fa5) -/
 def ListOfDicts_semi_join (truth : Term → Bool) : Out :=
   let tup0_1' : Term := (Term.app "._split_join_by" [(Term.sym "self"), (Term.app "*" [(Term.sym "by")])]);
@@ -114,5 +144,8 @@ def ListOfDicts_semi_join (truth : Term → Bool) : Out :=
 
 /-- the decorators of dataiter/list_of_dicts.py: ListOfDicts.semi_join, outermost first -/
 def ListOfDicts_semi_join_decorators : List String := ["deco.new_from_generator"]
+
+/-- the signature of dataiter/list_of_dicts.py: ListOfDicts.semi_join: parameters in order, with the source text of their defaults -/
+def ListOfDicts_semi_join_signature : List String := ["self", "other", "*by"]
 
 end DI.Gen
